@@ -254,6 +254,7 @@ var oddNames = []string{"-", "-", "~", "--help", "a b", "x.gz", "x.gz.y", "\u00f
 
 // RunC06 is one simulated run.
 func RunC06(ctx *core.Ctx, r *core.Rng) {
+	Noise(ctx, r)
 	f := core.Pick(r, fmts.All)
 	// swarm configuration
 	var sz fmts.Size
